@@ -1010,7 +1010,7 @@ class CParser:
         if spec is None:
             self._parse_error("Invalid specifier list", self.clex.filename)
 
-        if not saw_type and not saw_alignment:
+        if not saw_type:
             self._parse_error("Missing type in declaration", first_coord)
 
         if spec.get("storage") is None:
